@@ -92,7 +92,7 @@ def run(rep, tier):
                 "every key and data value, push restricted to absent keys (precondition); all four methods may run in one "
                 "cycle and act on the pre-state; non-trivial = >=3 operations in a cycle, remove+write of the same stored key, "
                 "push refused when full")
-    rep.assumptions = ["pysim semantics", "never push a present key (precondition)", "key width <= 2, data width <= 2"]
+    rep.assumptions = ["pysim semantics", "never push a present key (precondition)", "key width <= 2, data width <= 2, data layouts of one or two fields"]
     small, big = jobs(tier)
     rep.add_e1(run_jobs(small))
     rep.add_e1(run_big(big))
